@@ -128,6 +128,7 @@ func TestC13(t *testing.T) {
 		cfg.ReopenWeight = 20
 		c13Install(e)
 		fail0 := func(v *drv.Violation) {
+			drv.SetFailing()
 			log := e.Log
 			e.Cleanup()
 			failCase(rt, replayDoc{Property: "C13", Kind: "history", Ops: log, Extra: mustJSON(c13Doc{})}, v)
